@@ -36,7 +36,13 @@ TECHNIQUE = (
     "with eight rows; tools/make_c11_fixture.py) - and the run is appended to a copy of it; usage variation: the caller re-assigns the public attributes of "
     "the request / response object (and the pdu of the raw kinds) right after request() came back, while the row may still be queued or retried; "
     "bursts of several hundred to a few thousand exchanges whose rows all wait behind a foreign write transaction, with the driving task watched "
-    "through a coroutine wrapper and cancelled the moment it is found suspended behind its own exchange (request written, client not inside a transport call)"
+    "through a coroutine wrapper and cancelled the moment it is found suspended behind its own exchange (request written, client not inside a transport call); "
+    "environment variation: the pre-existing database has collected further runs (discovery runs, scans of the same and of other ECUs, the coming run's target "
+    "already known as an address), appended to the copy of the fixture with the sqlite3 module before the handler connects; which scan_run row is the run's own "
+    "is told from the file (the one row that was not there before) and every row of the run must be filed under it; usage variation: the client's view of the "
+    "ECU is reset between two exchanges without a reply being involved, through the client's own API - ECU.refresh_state(reset_state=True), and ECU.power_cycle() "
+    "of a client that was given a power supply (a harness object with PowerSupply's power_cycle() contract) - and the exchanges the client starts on its own "
+    "meanwhile (read of the session, ping) are observed through a request() override of a harness subclass"
 )
 LEVEL_TEXT = (
     "Exploration: generated histories of 1..25 exchanges (every request kind of the codec generators, raw requests, replies of every "
@@ -74,6 +80,14 @@ LEVEL_TEXT = (
     "normally, is cancelled between two exchanges or while the last request awaits its reply; in the sixth family the driving task is cancelled at once if it "
     "is ever found waiting for something while it is inside request(), its request has been written and the client is not inside a transport call - a "
     "request cancelled there after the transport had delivered its final reply was a complete exchange and must have its row. "
+    "(a', further runs in the database) three quarters of the pre-existing databases have grown since the fixture's run: 0..3 discovery runs with 1..5 addresses each, 0..5 further "
+    "scan runs of the fixture's ECU and of other ECUs with 0..8 rows each, and the target of the coming run already known (discovered, or scanned before) or not - so that the "
+    "address, run_meta and scan_run tables hold different numbers of rows; every row of the run must be filed under the scan_run row that came with the run. "
+    "(d) View reset without a reply (first, sixth and seventh family): in half of the histories whose scripted replies take the client into a non-default session or security "
+    "level (7 % of the others) the caller, between two exchanges - preferably after an exchange that was recorded in that non-default view -, calls "
+    "ECU.refresh_state(reset_state=True) (view reset, then 22 F1 86 with any outcome of the generators) or ECU.power_cycle() on a client constructed with a power supply "
+    "(supply off/on, wait_for_ecu() pings after 0.5 s of real time, answered positively or negatively, then the view is reset); the rows of the client's own exchanges and of "
+    "all exchanges after the reset must hold the view as it was when request() was entered, and the shadow goes to the default session at the reset. "
     "Held = every row set read back matched its wire log."
 )
 LEVEL_NOTE = (
@@ -96,7 +110,11 @@ RULE = (
     "same / fresh event loop x same / new scan run x how the session before ended (normally, cancelled, failed: all three required). "
     "Pre-existing database: a flag per history (own generator, 30 %), required with all three ways a run can end; caller edits: a choice per exchange (own "
     "generator: response 18 %, both 12 %, request 6 %), rows compared after an edit are counted, also those the writer had to retry after the edit; bursts: "
-    "size class x way the run ends, required with more than 1000 and more than 2000 rows waiting and cancelled with more than 1000 rows waiting"
+    "size class x way the run ends, required with more than 1000 and more than 2000 rows waiting and cancelled with more than 1000 rows waiting; "
+    "further runs in the pre-existing database: a plan per history (own generator: discovery runs x addresses x scan runs x rows x target seen before), rows compared are "
+    "required for databases whose address and scan_run tables differ in size with a new target, and whose run_meta and scan_run tables differ in size with a known target; "
+    "view reset without a reply: kind (refresh_state(reset_state=True) 36 % / power_cycle() 14 % of the histories that reach a non-default view) x place x script of the client's "
+    "own exchange; required: rows compared after a reset of a non-default view in which rows had been recorded, for both kinds, and rows of the client's own exchanges"
 )
 ASSUMPTIONS = [
     "a request() whose write was attempted counts as put on the wire; retries belong to their exchange (one row, final outcome)",
@@ -138,6 +156,15 @@ ASSUMPTIONS = [
     "thread, ROLLBACK from a timer of the event loop) that touches no table; its duration is a real-time wait. If the handler's writer reported a retry "
     "(the transaction outlasted the busy timeout) transmission order is judged on request_time, as for writer faults. Warnings are attributed to the "
     "history in whose task context (contextvars) they were logged, since the histories of a wave share the loop",
+    "further runs in the pre-existing database: written by the harness with the sqlite3 module into the copy of the fixture before the handler connects, in the shape the "
+    "released code writes them (schema of the file itself, run_meta and scan_result values copied from the fixture's rows); the run's own scan_run row is the one row of that "
+    "table that was not there before the handler connected (for a handler used again: before the session that started the scan run) and it must name the run's target; if the "
+    "file does not tell (no such row, several) the rows are only judged against DBHandler.scan_run (counted: own-scan-run.not-told-from-the-file)",
+    "view reset without a reply: the power supply is a harness object with the power_cycle(sleep, callback) contract of gallia.power_supply.PowerSupply (it calls the callback, "
+    "i.e. ECU.wait_for_ecu(), whose 0.5 s sleep is real time); after ECU.power_cycle() returned True and when ECU.refresh_state(reset_state=True) sends its request the ECU is "
+    "taken to be in the default session without security access (what a power cycle does to an ECU; what reset_state=True asks for); the client's own exchanges are seen by a "
+    "request() override in a harness subclass of ECU (only in histories with such a reset), which takes the view before the request when request() is entered; exceptions of "
+    "refresh_state() are the caller's to handle and are dropped; no such reset in writer-fault histories, bursts and the concurrent families",
     "handler used again: a new ECU object and transport per session (the client's view of the ECU state starts at the default session again); the handler "
     "object is created outside any event loop; a disconnect() that has not returned 5 s (wall clock) after the handler's writer task "
     "(DBHandler._executor_task) ended is given up, the connection closed by force and the file judged as it is - a writer task that has ended can "
@@ -217,6 +244,15 @@ def required_reach(tier: str) -> dict[str, int]:
         "foreign-lock.burst.histories": 3 if tier == "quick" else 12, "foreign-lock.burst.more-than-1000-rows-waiting-when-the-run-ended": 2 if tier == "quick" else 8,
         "foreign-lock.burst.more-than-2000-rows-waiting-when-the-run-ended": 1 if tier == "quick" else 3,
         "foreign-lock.burst.cancelled-with-more-than-1000-rows-waiting": 2 if tier == "quick" else 6,
+        # the pre-existing database has collected further runs: its address / run_meta / scan_run tables differ in size (target of the run new / known)
+        "pre-existing-database.holds-further-runs.histories": 300 * k,
+        "pre-existing-database.holds-further-runs.target-not-seen-before.number-of-addresses-differs-from-number-of-scan-runs.rows-compared": 400 * k,
+        "pre-existing-database.holds-further-runs.target-seen-before.more-runs-than-scan-runs.rows-compared": 400 * k,
+        # the client's view of the ECU is reset between two exchanges without a reply (refresh_state(reset_state=True), power_cycle() with a power supply)
+        "view-reset.reset.of-a-non-default-view-with-rows-recorded-in-it.rows-compared-afterwards": 150 * k,
+        "view-reset.power-cycle.of-a-non-default-view-with-rows-recorded-in-it.rows-compared-afterwards": 40 * k,
+        "view-reset.exchange-started-by-the-client-during-reset.rows-compared": 80 * k,
+        "view-reset.exchange-started-by-the-client-during-power-cycle.rows-compared": 25 * k,
     }
 
 
@@ -227,11 +263,13 @@ def lock_fractions(tier: str) -> list[float]:
 
 # ---- generation ------------------------------------------------------------------------------------
 class Ex:
-    __slots__ = ("req", "cls", "events", "tag", "implicit", "cfg_retry", "edit")
+    __slots__ = ("req", "cls", "events", "tag", "implicit", "cfg_retry", "edit", "before", "side")
 
     def __init__(self, req: Any, cls: str, events: list[tuple[Any, ...]], tag: str | None, implicit: bool, cfg_retry: int | None):
         self.req, self.cls, self.events, self.tag, self.implicit, self.cfg_retry = req, cls, events, tag, implicit, cfg_retry
         self.edit = ""  # what the caller does with its objects right after request() came back: "" | "response" | "request" | "both"
+        self.before = ""  # what the caller does with the client right before this exchange: "" | "reset" (refresh_state(reset_state=True)) | "power-cycle"
+        self.side: list[tuple[Any, ...]] = []  # script of the exchange the client itself starts during that (read of the session / ping)
 
 
 # ---- usage variation: the caller goes on working with the objects of an exchange that is over --------------------------------
@@ -303,15 +341,189 @@ def fixture_rows() -> list[dict[str, Any]]:
     return _fixture_rows[0]
 
 
-def plant_fixture(path: Any) -> list[dict[str, Any]]:
-    """the history's database file starts as a copy of the earlier run's file; -> the rows that are in it"""
-    rows = fixture_rows()
-    shutil.copyfile(FIXTURE, path)
-    return rows
-
-
 def wants_fixture(hseed: str) -> bool:
     return random.Random("pre/" + hseed).random() < 0.3
+
+
+# ---- ... and it has collected further runs meanwhile (one database per project: discovery runs, scans of several ECUs) ---------
+def age_plan(hseed: str) -> dict[str, Any] | None:
+    """what else the project database holds besides the fixture's run (own generator; None: nothing else)"""
+    rng = random.Random("aged/" + hseed)
+    if rng.random() < 0.25:
+        return None
+    return {"discovery_runs": rng.choice([0, 1, 1, 2, 3]), "addresses_per_discovery_run": rng.choice([1, 2, 3, 5]),
+            "scan_runs": rng.choice([0, 1, 2, 3, 5]), "rows_per_scan_run": rng.choice([0, 1, 3, 8]), "scan_targets": rng.choice([1, 1, 2]),
+            "target_seen_before": rng.choice(["no", "no", "discovered", "scanned"])}
+
+
+def age_database(path: Any, plan: dict[str, Any], target: str) -> None:
+    """Appends earlier runs to the copy of the fixture with the sqlite3 module, in the shape the released code writes them (the schema is
+    the file's own; the run_meta / scan_result values are copies of the fixture's rows): discovery runs (run_meta, discovery_run, address
+    and discovery_result rows), further scan runs of the fixture's ECU and of other ECUs (run_meta, scan_run, scan_result rows), and - if
+    wanted - the target of the coming run as an address that was discovered or scanned before.  Never touches the tree under test."""
+    con = sqlite3.connect(str(path), timeout=30.0)
+    try:
+        con.execute("PRAGMA foreign_keys = 1")
+        n = [0]
+
+        def run_meta(script: str) -> int:
+            n[0] += 1
+            cur = con.execute(
+                "INSERT INTO run_meta(script, config, start_time, start_timezone, end_time, end_timezone, exit_code, path, exclude) "
+                "SELECT ?, config, start_time + ?, start_timezone, end_time + ?, end_timezone, exit_code, path, exclude FROM run_meta ORDER BY id LIMIT 1",
+                (script, 60.0 * n[0], 60.0 * n[0]))
+            assert cur.lastrowid is not None
+            return cur.lastrowid
+
+        def address(url: str) -> None:
+            con.execute("INSERT OR IGNORE INTO address(url) VALUES(?)", (url,))
+
+        def scan_run(url: str, rows: int) -> None:
+            address(url)
+            meta = run_meta("vf.c11.earlier-scan")
+            cur = con.execute("INSERT INTO scan_run(address, meta) VALUES((SELECT id FROM address WHERE url = ?), ?)", (url, meta))
+            con.execute(
+                "INSERT INTO scan_result(run, log_mode, state, request_pdu, request_time, request_timezone, request_data, response_pdu, response_time, "
+                "response_timezone, response_data, exception) SELECT ?, log_mode, state, request_pdu, request_time, request_timezone, request_data, response_pdu, "
+                "response_time, response_timezone, response_data, exception FROM scan_result WHERE run = (SELECT min(id) FROM scan_run) ORDER BY id LIMIT ?",
+                (cur.lastrowid, rows))
+
+        first = con.execute("SELECT url FROM address ORDER BY id LIMIT 1").fetchone()[0]
+        for d in range(plan["discovery_runs"]):
+            meta = run_meta("vf.c11.earlier-discovery")
+            cur = con.execute("INSERT INTO discovery_run(protocol, meta) VALUES('vf', ?)", (meta,))
+            for a in range(plan["addresses_per_discovery_run"]):
+                url = f"vf://c11/discovered/{d}/{a}"
+                address(url)
+                con.execute("INSERT INTO discovery_result(run, address) VALUES(?, (SELECT id FROM address WHERE url = ?))", (cur.lastrowid, url))
+            if d == 0 and plan["target_seen_before"] == "discovered":
+                address(target)
+                con.execute("INSERT INTO discovery_result(run, address) VALUES(?, (SELECT id FROM address WHERE url = ?))", (cur.lastrowid, target))
+        for k in range(plan["scan_runs"]):
+            j = k % plan["scan_targets"]
+            scan_run(first if j == 0 else f"vf://c11/other-ecu/{j}", plan["rows_per_scan_run"])
+        if plan["target_seen_before"] == "scanned":
+            scan_run(target, plan["rows_per_scan_run"])
+        elif plan["target_seen_before"] == "discovered":
+            address(target)  # (no discovery run in the plan: the address is known from an import)
+        con.commit()
+    finally:
+        con.close()
+
+
+def read_scan_runs(path: Any) -> list[tuple[int, str | None, int | None]]:
+    """(id, url of its address, run_meta id) of every scan_run row, with the sqlite3 module"""
+    con = sqlite3.connect(f"file:{path}?mode=ro", uri=True)
+    try:
+        return [tuple(r) for r in con.execute("SELECT sr.id, a.url, sr.meta FROM scan_run sr LEFT JOIN address a ON a.id = sr.address ORDER BY sr.id")]
+    finally:
+        con.close()
+
+
+def plant_database(path: Any, hseed: str, target: str) -> dict[str, Any]:
+    """the history's database file starts as a copy of the earlier run's file, grown by what age_plan(hseed) says;
+    -> what is in it before the handler under test connects"""
+    shutil.copyfile(FIXTURE, path)
+    plan = age_plan(hseed)
+    if plan is None:
+        rows = fixture_rows()
+    else:
+        age_database(path, plan, target)
+        rows = dh.read_rows(path)
+    con = sqlite3.connect(f"file:{path}?mode=ro", uri=True)
+    try:
+        counts = {t: con.execute(f"SELECT count(*) FROM {t}").fetchone()[0] for t in ("address", "run_meta", "scan_run")}
+        seen = con.execute("SELECT count(*) FROM address WHERE url = ?", (target,)).fetchone()[0] > 0
+    finally:
+        con.close()
+    return {"rows": rows, "plan": plan, "counts": counts, "target_seen_before": seen, "scan_runs": [r[0] for r in read_scan_runs(path)]}
+
+
+def own_scan_run(spec: dict[str, Any], path: Any, before: list[int], target: str) -> None:
+    """Which scan_run row is this run's own, told from the file alone: the one row that was not there before the handler was connected;
+    it must name the run's target.  (If that cannot be told - no such row, several - the rows are judged against the handler's word only.)"""
+    runs = read_scan_runs(path)
+    new = [r for r in runs if r[0] not in set(before)]
+    if len(new) == 1 and new[0][1] == target:
+        spec["own_run"] = {"id": new[0][0], "scan_runs_before": sorted(before)}
+    else:
+        spec["own_run"] = {"id": None, "new_scan_run_rows": [list(r) for r in new][:6]}
+
+
+# ---- usage variation: the client's view of the ECU changes between two exchanges without a reply being involved --------------
+DEFAULT_VIEW: dict[str, Any] = {"session": 1, "security_access_level": None}
+
+
+class BenchSupply:
+    """Stands in for gallia.power_supply.PowerSupply (same power_cycle() contract: off, wait, on, then the callback); no device."""
+
+    def __init__(self) -> None:
+        self.cycles = 0
+
+    async def power_cycle(self, sleep: float = 2.0, callback: Any = None) -> None:
+        self.cycles += 1
+        await asyncio.sleep(0)
+        if callback is not None:
+            await callback()
+
+
+def make_ecu11(transport: Any, handler: Any, max_retry: int) -> Any:
+    """dh.make_ecu with a power supply, as a subclass whose request() tells the harness about the exchanges the client starts on its
+    own while the caller is inside ECU.power_cycle() / ECU.refresh_state() (`side`, set by the driver for the time of that call)"""
+    from gallia.services.uds.ecu import ECU
+
+    class ECU11(ECU):
+        side: Any = None
+
+        async def request(self, request: Any, config: Any = None) -> Any:  # type: ignore[override]
+            if self.side is None:
+                return await super().request(request, config)
+            return await self.side(super().request, request, config)
+
+    ecu = ECU11(transport, timeout=0.05, max_retry=max_retry, power_supply=BenchSupply())  # type: ignore[arg-type]
+    ecu.retry_wait = 0.0
+    ecu.db_handler = handler
+    return ecu
+
+
+def plan_view_ops(exs: list[Ex], hseed: str, max_retry: int, crash: tuple[Any, ...]) -> None:
+    """In some histories the caller, between two exchanges, resets the client's view of the ECU through the client's own API: ECU.refresh_state(
+    reset_state=True) (the view is reset, then the session is read: an exchange 22 F1 86 with any outcome) or - the client was given a power
+    supply - ECU.power_cycle() (ECU switched off and on, a ping until it answers, then the view is reset).  Own generator; the place is
+    preferably one where the replies scripted so far leave the client in a non-default session."""
+    rng = random.Random("view/" + hseed)
+    n = len(exs)
+    last = n - 1 if crash[0] == "none" else crash[1] - 1 if crash[0] in ("cancel-between", "raise-between") else crash[1]
+    if last < 1:
+        return
+    # places where the replies scripted so far leave the client in a non-default view (cand), and where moreover the exchange before was
+    # made in that very view with logging on (strong): a bias of the generator, nothing the oracle relies on
+    shadow, views = dict(DEFAULT_VIEW), []
+    for ex in exs[: last + 1]:
+        views.append(shadow)
+        try:
+            fin = ex.events[-1] if ex.events and ex.events[-1][0] == "reply" else None
+            if fin is not None and fin[1][0] == (ex.req.pdu[0] + 0x40) & 0xFF:
+                shadow = shadow_apply(shadow, fin[1])
+        except Exception:  # noqa: BLE001
+            pass
+    cand = [i for i in range(1, last + 1) if views[i] != DEFAULT_VIEW]
+    strong = [i for i in cand if views[i - 1] == views[i] and exs[i - 1].implicit]
+    k = rng.random()
+    if cand:
+        kind = "power-cycle" if k < 0.14 else "reset" if k < 0.5 else ""
+    else:
+        kind = "power-cycle" if k < 0.01 else "reset" if k < 0.07 else ""
+    if not kind:
+        return
+    at = rng.choice(strong) if strong and rng.random() < 0.8 else rng.choice(cand) if cand and rng.random() < 0.85 else rng.randint(1, last)
+    ex = exs[at]
+    ex.before = kind
+    if kind == "power-cycle":
+        ex.side = [("reply", b"\x7e\x00")] if rng.random() < 0.75 else [("reply", bytes([0x7F, 0x3E, rng.choice(NRCS)]))]
+    else:
+        sess = rng.choice([1, 1, 1, 3, rng.randrange(1, 128)])
+        ex.side = build_events(rng, b"\x22\xf1\x86", bytes([0x62, 0xF1, 0x86, sess]), max_retry)
 
 
 def build_request(rng: random.Random) -> tuple[Any, str, bytes, bytes | None]:
@@ -472,6 +684,7 @@ def gen_history(hseed: str) -> dict[str, Any]:
         exs[k].events = [("X",)]
         crash = ("raise-mid", k)
     plan_edits(exs, hseed)
+    plan_view_ops(exs, hseed, max_retry, crash)
     return {"hseed": hseed, "max_retry": max_retry, "ex": exs, "crash": crash, "pre": wants_fixture(hseed)}
 
 
@@ -571,6 +784,8 @@ class Obs:
         self.after: dict[str, Any] = {}
         self.rep = ""  # repr() of what request() returned / raised, taken before the caller touches the objects
         self.edited = 0  # assignments the caller made to the request / response object after request() came back
+        self.side = ""  # the client started this exchange on its own while the caller was inside: "" | "reset" | "power-cycle"
+        self.reset_before: dict[str, Any] | None = None  # the client's view was reset (without a reply) and this is the first exchange after that
 
 
 class Boom(Exception):
@@ -877,11 +1092,16 @@ async def run_history(ctx: Any, spec: dict[str, Any], path: Any, catch: Any, han
     lockp: dict[str, Any] | None = spec.get("lock")
     burst: dict[str, Any] | None = spec.get("burst")
     earlier: list[dict[str, Any]] = []  # rows that were in the file before this handler was connected
+    runs_before: list[int] = []  # scan_run rows that were in it
+    target = ("vf://c11r/" if sess is not None else "vf://c11/") + spec["hseed"]
     if handler is None:
         if spec.get("pre"):
-            earlier = plant_fixture(path)  # the run is appended to the database an earlier run of the released code left behind
+            # the run is appended to the database an earlier run of the released code left behind (and which may have collected further runs since)
+            planted = plant_database(path, spec["hseed"], target)
+            earlier, runs_before = planted["rows"], planted["scan_runs"]
+            spec["planted"] = {k: planted[k] for k in ("plan", "counts", "target_seen_before")}
         try:
-            handler = await dh.open_handler(path, "vf://c11/" + spec["hseed"])
+            handler = await dh.open_handler(path, target)
         except dh.HandlerStep as e:
             if earlier and e.step == "connect" and e.kind == "raises":
                 # a tree that refuses the older file outright has no database configured: nothing to judge (and the reach
@@ -890,6 +1110,8 @@ async def run_history(ctx: Any, spec: dict[str, Any], path: Any, catch: Any, han
                 return "refused"
             raise
     else:
+        assert st is not None and sess is not None
+        runs_before = st.get("scan_runs", [])
         await reopen(handler, spec)
     watch: InsertWatch | None = None
     if spec.get("wf") is None:
@@ -911,8 +1133,10 @@ async def run_history(ctx: Any, spec: dict[str, Any], path: Any, catch: Any, han
         await fw.begin()
 
     tr = Wire11()
-    ecu = dh.make_ecu(tr, handler, spec["max_retry"])
+    with_view_op = any(ex.before for ex in spec["ex"])
+    ecu = make_ecu11(tr, handler, spec["max_retry"]) if with_view_op else dh.make_ecu(tr, handler, spec["max_retry"])
     obs: list[Obs] = []
+    view_reset: list[dict[str, Any]] = []  # a reset of the client's view that the next exchange is the first to follow
     crash = spec["crash"]
     parked = asyncio.Event()
     catch.take_lost()
@@ -939,6 +1163,55 @@ async def run_history(ctx: Any, spec: dict[str, Any], path: Any, catch: Any, han
             for _ in range(int(kind[6:])):
                 await asyncio.sleep(0)
 
+    async def view_op(ex: Ex) -> None:
+        """the caller resets the client's view of the ECU through the client's API; exchanges the client starts meanwhile are observed as the
+        caller's own are (view before the request taken when request() is entered)"""
+
+        async def side(call: Any, request: Any, config: Any) -> Any:
+            sx = Ex(request, type(request).__name__, list(ex.side), None, ecu.implicit_logging, None)
+            o = Obs(len(obs), sx, dict(ecu.state.__dict__), len(tr.log))
+            o.side = ex.before
+            if view_reset:
+                o.reset_before = view_reset.pop()
+            obs.append(o)
+            tr.arm(sx.events)
+            try:
+                r = await call(request, config)
+                o.result = ("ok", r)
+                return r
+            except asyncio.CancelledError:
+                o.result = ("cancelled",)
+                raise
+            except Exception as e:  # noqa: BLE001
+                o.result = ("exc", e)
+                o.rep = repr(e)
+                raise
+            finally:
+                o.end = len(tr.log)
+                o.lost = catch.take_lost()
+                o.after = dict(ecu.state.__dict__)
+
+        before = dict(ecu.state.__dict__)
+        ecu.side = side
+        try:
+            if ex.before == "power-cycle":
+                # ECU.power_cycle(): supply off / on, wait_for_ecu() pings (after 0.5 s of real time) until the ECU answers, then the view is reset
+                done = await ecu.power_cycle(sleep=0)
+                if done is not True or ecu.power_supply.cycles < 1:
+                    raise RuntimeError(f"harness: ECU.power_cycle() returned {done!r} after {ecu.power_supply.cycles} cycle(s) of the supply")
+                view_reset.append({"how": "power-cycle", "view_before": before})
+            else:
+                # ECU.refresh_state(reset_state=True): the view is reset, then the session is read from the ECU
+                view_reset.append({"how": "reset", "view_before": before})
+                try:
+                    await ecu.refresh_state(reset_state=True)
+                except asyncio.CancelledError:
+                    raise
+                except Exception:  # noqa: BLE001  (no reply, a negative or an unusable reply to the read of the session: the caller goes on)
+                    pass
+        finally:
+            ecu.side = None
+
     async def driver() -> None:
         for i, ex in enumerate(spec["ex"]):
             if wfp is not None and i:
@@ -951,7 +1224,11 @@ async def run_history(ctx: Any, spec: dict[str, Any], path: Any, catch: Any, han
             if crash[0] == "raise-between" and crash[1] == i:
                 raise Boom()
             ecu.implicit_logging = ex.implicit
-            o = Obs(i, ex, dict(ecu.state.__dict__), len(tr.log))
+            if ex.before:
+                await view_op(ex)
+            o = Obs(len(obs), ex, dict(ecu.state.__dict__), len(tr.log))
+            if view_reset:
+                o.reset_before = view_reset.pop()
             obs.append(o)
             tr.arm(ex.events)
             try:
@@ -1064,6 +1341,14 @@ async def run_history(ctx: Any, spec: dict[str, Any], path: Any, catch: Any, han
             spec["gave_up"] = gave_up
     stray = catch.take_lost()
     rows = dh.read_rows(path)
+    if sess is None or sess["scan_run"] in ("first", "new"):
+        own_scan_run(spec, path, runs_before, target)
+    else:
+        assert st is not None
+        spec["own_run"] = st.get("own_run", {"id": None})
+    if st is not None:
+        st["own_run"] = spec["own_run"]
+        st["scan_runs"] = [r[0] for r in read_scan_runs(path)]
     if sess is None and earlier:
         # the rows of the earlier run must still be there, unchanged; the history is judged on the rows that came with it
         def ident0(r: dict[str, Any]) -> tuple[Any, ...]:
@@ -1145,6 +1430,10 @@ def _describe(spec: dict[str, Any], o: Obs | None, wire: list[tuple[Any, ...]], 
         w["burst"] = dict(spec["burst"])
     if spec.get("pre"):
         w["database"] = "copy of fixtures/c11-schema-4.0.sqlite (written by an earlier run of the released code); the run is appended"
+        if spec.get("planted") and spec["planted"]["plan"] is not None:
+            w["database_also_holds"] = dict(spec["planted"]["plan"]) | {"rows_in_table": spec["planted"]["counts"], "target_of_this_run_seen_before": spec["planted"]["target_seen_before"]}
+    if "own_run" in spec:
+        w["scan_run_row_that_came_with_this_run"] = spec["own_run"]
     if "gave_up" in spec:
         w["close"] = spec["gave_up"]
     if "cut" in spec:
@@ -1156,6 +1445,10 @@ def _describe(spec: dict[str, Any], o: Obs | None, wire: list[tuple[Any, ...]], 
                   "state_before": o.snapshot, "state_after": o.after, "warnings": o.lost})
         if o.ex.edit:
             w["caller_edited_after_request_returned"] = {"what": o.ex.edit, "assignments": o.edited}
+        if o.side:
+            w["exchange_started_by_the_client_while_the_caller_was_inside"] = "ECU.power_cycle()" if o.side == "power-cycle" else "ECU.refresh_state(reset_state=True)"
+        if getattr(o, "since_reset", None):
+            w["client_view_reset_without_a_reply_before_this_exchange"] = o.since_reset  # type: ignore[attr-defined]
     if row is not None:
         w["row"] = {k: row[k] for k in ("id", "run", "log_mode", "state", "request_pdu", "response_pdu", "request_time", "response_time", "exception")}
     return w
@@ -1198,6 +1491,38 @@ def judge(ctx: Any, spec: dict[str, Any], obs: list[Obs], wire: list[tuple[Any, 
         ctx.reach(f"pre-existing-database.session-{phase}")
     if "gave_up" in spec:
         ctx.reach("disconnect.given-up." + ("writer-retries-without-end" if "INSERTs" in spec["gave_up"] else "writer-task-ended"))
+    planted: dict[str, Any] | None = spec.get("planted")
+    out_of_step = ""  # the database held further runs and its address / run_meta / scan_run tables have different numbers of rows
+    if planted is not None and planted["plan"] is not None:
+        ctx.reach("pre-existing-database.holds-further-runs.histories")
+        c = planted["counts"]
+        if planted["target_seen_before"]:
+            ctx.reach("pre-existing-database.holds-further-runs.target-seen-before")
+            out_of_step = "target-seen-before.more-runs-than-scan-runs" if c["run_meta"] != c["scan_run"] else ""
+        else:
+            out_of_step = "target-not-seen-before.number-of-addresses-differs-from-number-of-scan-runs" if c["address"] != c["scan_run"] else ""
+        if out_of_step:
+            ctx.reach(f"pre-existing-database.holds-further-runs.{out_of_step}")
+    own: dict[str, Any] = spec.get("own_run") or {"id": None}
+    if own["id"] is None:
+        ctx.reach("own-scan-run.not-told-from-the-file")
+
+    # ---- the client's view was reset without a reply (power cycle, refresh_state(reset_state=True)): which exchanges follow such a reset
+    since: dict[str, Any] | None = None
+    row_in_view = False  # a row was recorded while the client's view was what it is now
+    for o in obs:
+        if o.reset_before is not None:
+            vb = o.reset_before["view_before"]
+            since = {"how": o.reset_before["how"], "view_before": vb, "rows_recorded_in_that_view": row_in_view and vb != DEFAULT_VIEW}
+            ctx.reach(f"view-reset.{since['how']}")
+            if vb != DEFAULT_VIEW:
+                ctx.reach(f"view-reset.{since['how']}.of-a-non-default-view")
+            row_in_view = False
+        o.since_reset = since  # type: ignore[attr-defined]
+        if o.after != o.snapshot:
+            row_in_view, since = False, None  # a reply changed the view (after the row of this exchange was built)
+        elif o.ex.implicit and o.result is not None and o.result[0] != "cancelled" and not o.lost:
+            row_in_view = True
 
     # ---- what the wire log implies
     shadow = {"session": 1, "security_access_level": None}
@@ -1220,6 +1545,8 @@ def judge(ctx: Any, spec: dict[str, Any], obs: list[Obs], wire: list[tuple[Any, 
         else:
             fin = None  # failures below the UDS layer, pending overflow: no final reply
         o.final = fin  # type: ignore[attr-defined]
+        if o.reset_before is not None:
+            shadow = dict(DEFAULT_VIEW)  # ECU switched off and on / view reset by the caller: default session, no security level
         o.shadow_before = dict(shadow)  # type: ignore[attr-defined]
         shadow = shadow_apply(shadow, fin)
         # reach
@@ -1455,6 +1782,13 @@ def judge(ctx: Any, spec: dict[str, Any], obs: list[Obs], wire: list[tuple[Any, 
                 ctx.reach("caller-edit.rows-compared.row-retried-by-the-writer-after-the-edit")
         if row["run"] != scan_run:
             ctx.violation("row/wrong-run", "row does not belong to the scan run of this handler", describe(spec, o, wire, phase, row))
+        if own["id"] is not None and row["run"] != own["id"]:
+            # told from the file alone: the scan_run row that came with this run (not there before, names the run's target)
+            whose = "the-scan-run-of-an-earlier-run" if row["run"] in own.get("scan_runs_before", []) else "a-scan-run-that-is-not-the-runs-own"
+            ctx.violation(f"row/wrong-run/filed-under-{whose}" + ("/database-holds-further-runs" if planted is not None and planted["plan"] is not None else ""),
+                          "the row of an exchange of this run is filed under another scan run than the one this run added to the database", describe(spec, o, wire, phase, row))
+        if out_of_step:
+            ctx.reach(f"pre-existing-database.holds-further-runs.{out_of_step}.rows-compared")
         fin: bytes | None = o.final  # type: ignore[attr-defined]
         have = dh.unhex(row["response_pdu"])
         oc = o.oc  # type: ignore[attr-defined]
@@ -1483,8 +1817,17 @@ def judge(ctx: Any, spec: dict[str, Any], obs: list[Obs], wire: list[tuple[Any, 
             st = json.loads(row["state"])
         except (TypeError, ValueError):
             st = None
+        sr: dict[str, Any] | None = o.since_reset  # type: ignore[attr-defined]
+        if sr is not None:
+            ctx.reach(f"view-reset.{sr['how']}.rows-compared-afterwards")
+            if sr["rows_recorded_in_that_view"]:
+                ctx.reach(f"view-reset.{sr['how']}.of-a-non-default-view-with-rows-recorded-in-it.rows-compared-afterwards")
+        if o.side:
+            ctx.reach(f"view-reset.exchange-started-by-the-client-during-{o.side}.rows-compared")
         if st != o.snapshot:
             rel = "state-after-the-exchange" if st == o.after else "other"
+            if rel == "other" and sr is not None and st == sr["view_before"]:
+                rel = "view-as-it-was-before-" + ("the-power-cycle" if sr["how"] == "power-cycle" else "the-caller-reset-it")
             ctx.violation(f"state/not-the-view-before-the-request/{rel}", "state column differs from ECU.state as it was when request() was called", describe(spec, o, wire, phase, row))
         if o.snapshot != o.shadow_before:  # type: ignore[attr-defined]
             ctx.violation("state/client-view-differs-from-shadow", "the client's session/security level differs from what the replies seen so far imply",
@@ -1641,7 +1984,12 @@ def run_reuse(ctx: Any, hseed: str, path: Any, catch: dh.Catcher, st: dict[str, 
             groups.append([spec])
     handler = DBHandler(path)  # created outside any event loop
     # in some of the cases the file exists already (an earlier run of the released code wrote it): its rows are "rows of an earlier session"
-    st["rows"] = plant_fixture(path) if sessions[0].get("pre") else []
+    st["rows"], st["scan_runs"] = [], []
+    st.pop("own_run", None)
+    if sessions[0].get("pre"):
+        planted = plant_database(path, sessions[0]["hseed"], "vf://c11r/" + sessions[0]["hseed"])
+        st["rows"], st["scan_runs"] = planted["rows"], planted["scan_runs"]
+        sessions[0]["planted"] = {k: planted[k] for k in ("plan", "counts", "target_seen_before")}
     for spec in sessions:
         spec["pre"] = sessions[0].get("pre")
     before = st.get("given_up", 0)
